@@ -151,7 +151,7 @@ inductive SStep
   deriving Repr
 
 def noParams : Params :=
-  { passive := false, failDur := 0, maxFails := 1, retries := 0, maxReq := 0, firstMax := 0, badStatus := [], latency := false, aOn := false, aPasses := 1, aFails := 1, dynamic := false }
+  { passive := false, failDur := 0, maxFails := 1, retries := 0, maxReq := 0, firstMax := 0, badStatus := [], latency := false, closeStreams := false, aOn := false, aPasses := 1, aFails := 1, dynamic := false }
 
 /-- the status code behind an answer token of the wire syntax (`none` = not a complete answer) -/
 def answerStatus : String → Option Nat
@@ -323,6 +323,37 @@ def activeRound (d : DState) (s : State) (c : CfgId) : Option State :=
   | some cs => if cs.par.aOn then roundFrom d c s 0 cs.ups else some s
   | none => none
 
+/-- does unloading handler `c` close the upgraded connection of request `r`?  (streaming.go
+    cleanupConnections with stream_close_delay = 0, the default: Cleanup closes every registered
+    connection of the handler at once) -/
+def closesStream (d : DState) (c : CfgId) (s : State) (r : Nat) : Bool :=
+  match s.reqs[r]? with
+  | some q => q.cfg == c && q.par.closeStreams && d.wsStreaming.contains r && isParked s r
+  | none => false
+
+/-- …their requests end normally: the copiers stop, `reverseProxy` returns, the deferred
+    `countRequest(-1)` runs (and a loop iteration with dynamic upstreams releases them) -/
+def closeStreamsFrom (d : DState) (c : CfgId) : State → Nat → Nat → State
+  | s, _, 0 => s
+  | s, r, n + 1 =>
+    if closesStream d c s r then
+      match endAttempt s r .ok with
+      | some s1 =>
+        match endIteration d s1 r with
+        | some s2 => closeStreamsFrom d c s2 (r + 1) n
+        | none => closeStreamsFrom d c s1 (r + 1) n
+      | none => closeStreamsFrom d c s (r + 1) n
+    else closeStreamsFrom d c s (r + 1) n
+
+/-- the schedule state after handler `c` was unloaded in state `s` -/
+def afterUnload (d : DState) (c : CfgId) (s : State) : DState :=
+  { d with s := closeStreamsFrom d c s 0 s.reqs.length,
+           streaming := d.streaming.filter (fun r => !closesStream d c s r),
+           wsStreaming := d.wsStreaming.filter (fun r => !closesStream d c s r) }
+
+/-- the configuration a load replaces, if it is still loaded -/
+def replaced (d : DState) : Option CfgId := curLive d
+
 /-- Provision of a new configuration and unloading of the one it replaces -/
 def loadCore (d : DState) (ks : List Key) (p : Params) (fb : List Key) : Option (DState × String) :=
   match step d.s (.newCfg p) with
@@ -349,9 +380,9 @@ def sstep (d : DState) : SStep → Option (DState × String)
     match loadCore d ks p fb with
     | none => none
     | some x =>
-      match activeRound d x.1.s d.s.cfgs.length with
+      match activeRound d (match replaced d with | some old => afterUnload x.1 old x.1.s | none => x.1).s d.s.cfgs.length with
       | none => none
-      | some s' => some ({ x.1 with s := s' }, x.2)
+      | some s' => some ({ (match replaced d with | some old => afterUnload x.1 old x.1.s | none => x.1) with s := s' }, x.2)
   | .health k ok =>
     if d.hbad.contains k == !ok then none
     else some ({ d with hbad := if ok then d.hbad.filter (· != k) else k :: d.hbad }, "-")
@@ -376,7 +407,7 @@ def sstep (d : DState) : SStep → Option (DState × String)
     | some c =>
       match unload d.s c (ownKeys d d.s c) with
       | none => none
-      | some s1 => some ({ d with s := s1 }, "C")
+      | some s1 => some (afterUnload d c s1, "C")
   | .newReq get =>
     match curLive d with
     | none => none
